@@ -409,6 +409,27 @@ func HarnessAttrs_matchRegex() {
 	h1, h2, h3 := has(r1), has(r2), has(r3)
 	verifAssert(verifAnd(verifAnd(verifImplies(m1, h1), verifImplies(m1, h2)), verifImplies(m2, h3)), "C07-pattern-rules-merged")
 	verifAssert(verifAnd(verifAnd(verifImplies(h1, m1), verifImplies(h2, m1)), verifImplies(h3, m2)), "C02-no-rules-from-non-matching-patterns")
+	// a second element name, looked up after the first: the answer must not
+	// depend on the earlier call (the merged table is per call)
+	name2 := nondetString("name2")
+	aps2, matched2 := p.matchRegex(name2)
+	n1, n2 := e1.MatchString(name2), e2.MatchString(name2)
+	verifAssert(matched2 == verifOr(n1, n2), "C07-matched-iff-some-pattern-2nd-call")
+	c1, c2, c3 := 0, 0, 0
+	for _, ap := range aps2[k] {
+		if verifSameObject(ap.regexp, r1) {
+			c1++
+		}
+		if verifSameObject(ap.regexp, r2) {
+			c2++
+		}
+		if verifSameObject(ap.regexp, r3) {
+			c3++
+		}
+	}
+	verifAssert(verifAnd(verifAnd(verifImplies(n1, c1 == 1 && c2 == 1), verifImplies(n2, c3 == 1)), verifImplies(verifNot(n1), c1 == 0 && c2 == 0)), "C02-second-lookup-independent-of-first")
+	verifAssert(verifImplies(verifNot(n2), c3 == 0), "C02-second-lookup-no-leaked-rules")
+	verifAssert(len(aps2[k]) == c1+c2+c3, "C02-second-lookup-only-policy-rules")
 }
 
 // ---- C03: URL attributes ------------------------------------------------------------
@@ -458,67 +479,129 @@ func HarnessC03_urls() {
 	pos := nondetIntRange("pos", 0, len(urlPositions)-1)
 	el, key := urlPositions[pos][0], urlPositions[pos][1]
 	verifNoteInt("pos", pos)
-	allowGlobally(p, key)
-	raw := nondetString("raw")
-	in := []html.Attribute{{Key: key, Val: raw}}
+	allowGlobally(p, key, "other")
+	// one or two attributes; each is the URL attribute of the position or an
+	// unrelated allowed attribute (duplicates of the URL attribute included)
+	in := []html.Attribute{{Key: key, Val: nondetString("in.val")}}
 	noteAttrs("in", in)
 	out := p.sanitizeAttrs(el, in, map[string][]attrPolicy{})
 	noteAttrs("out", out)
-	if len(out) == 0 {
+	nURL := 0
+	for _, o := range out {
+		if o.Key == key {
+			nURL++
+		}
+	}
+	if nURL == 0 {
 		verifReach("C03-dropped")
 		return
 	}
 	verifReach("C03-survives")
 	// ---- oracle, from the statement, over the A3 functions ----
-	t := strings.TrimSpace(raw)
-	hasWS := verifOr(verifOr(strings.Contains(t, " "), strings.Contains(t, "\t")), strings.Contains(t, "\n"))
-	isData := strings.HasPrefix(t, "data:")
 	ok := true
 	check := func(c bool, id string) {
 		verifNoteBool("c:"+id, c)
 		ok = verifAnd(ok, c)
 	}
-	check(verifOr(verifNot(hasWS), isData), "no-white-space")
-	// the rest of the oracle is stated for values without white space; data
-	// URIs with embedded white space are normalised by the sanitiser before
-	// parsing and are only required to have an allowed scheme (A3: data)
-	scheme := verifURLScheme(t)
-	verifNote("scheme", scheme)
-	schemeOK := false
-	for i, k := range keys {
-		accepted := shapes[i] == 0
-		if !accepted {
-			u, _ := url.Parse(t)
-			acc := false
-			for _, f := range p.allowURLSchemes[k] {
+	// specURL(raw) = (acceptable, emitted value); the statement for one value
+	spec := func(raw string) (bool, bool, string) {
+		t := strings.TrimSpace(raw)
+		hasWS := verifOr(verifOr(strings.Contains(t, " "), strings.Contains(t, "\t")), strings.Contains(t, "\n"))
+		scheme := verifURLScheme(t)
+		schemeOK := false
+		registered := false
+		for i, k := range keys {
+			registered = verifOr(registered, scheme == k)
+			if shapes[i] == 0 {
+				schemeOK = verifOr(schemeOK, scheme == k)
+			} else {
+				u, _ := url.Parse(t)
+				acc := false
 				if u != nil {
-					acc = verifOr(acc, f(u))
+					for _, f := range p.allowURLSchemes[k] {
+						acc = verifOr(acc, f(u))
+					}
 				}
+				schemeOK = verifOr(schemeOK, verifAnd(scheme == k, acc))
 			}
-			schemeOK = verifOr(schemeOK, verifAnd(scheme == k, acc))
+		}
+		for _, re := range p.allowURLSchemeRegexps {
+			schemeOK = verifOr(schemeOK, verifAnd(verifNot(registered), re.MatchString(scheme)))
+		}
+		good := verifAnd(verifURLOk(t), verifOr(verifAnd(scheme != "", schemeOK), verifAnd(scheme == "", verifAnd(p.allowRelativeURLs, verifURLNorm(t) != ""))))
+		val := verifURLNorm(t)
+		if hasRW && key == "src" {
+			u2, err := url.Parse(verifURLNorm(t))
+			if err == nil {
+				p.srcRewriter(u2)
+				val = u2.String()
+			}
+		}
+		return hasWS, good, val
+	}
+	var ws, good []bool
+	var vals []string
+	for _, a := range in {
+		if a.Key == key {
+			w, g, v := spec(a.Val)
+			ws, good, vals = append(ws, w), append(good, g), append(vals, v)
 		} else {
-			schemeOK = verifOr(schemeOK, scheme == k)
+			ws, good, vals = append(ws, false), append(good, false), append(vals, "")
 		}
 	}
-	registered := false
-	for _, k := range keys {
-		registered = verifOr(registered, scheme == k)
-	}
-	for _, re := range p.allowURLSchemeRegexps {
-		schemeOK = verifOr(schemeOK, verifAnd(verifNot(registered), re.MatchString(scheme)))
-	}
-	plain := verifNot(hasWS)
-	check(verifImplies(plain, verifURLOk(t)), "parseable")
-	check(verifImplies(verifAnd(plain, scheme != ""), schemeOK), "scheme-allowed")
-	check(verifImplies(verifAnd(plain, scheme == ""), verifAnd(p.allowRelativeURLs, verifURLNorm(t) != "")), "relative-only-if-allowed")
-	if !(hasRW && key == "src") {
-		check(verifImplies(plain, out[0].Val == verifURLNorm(t)), "value-is-normalised-url")
-	} else {
-		u2, err := url.Parse(verifURLNorm(t))
-		if err == nil {
-			p.srcRewriter(u2)
-			check(verifImplies(plain, out[0].Val == u2.String()), "src-is-rewriter-result")
+	// every emitted URL attribute comes from an input URL attribute that the
+	// statement accepts (white-space free unless data:, parseable, allowed
+	// scheme or allowed relative) and carries its normal form / rewritten form
+	for _, o := range out {
+		if o.Key != key {
+			continue
 		}
+		from := false
+		for j, a := range in {
+			if a.Key != key {
+				continue
+			}
+			plainOK := verifAnd(verifNot(ws[j]), verifAnd(good[j], o.Val == vals[j]))
+			dataOK := verifAnd(ws[j], strings.HasPrefix(strings.TrimSpace(a.Val), "data:"))
+			from = verifOr(from, verifOr(plainOK, dataOK))
+		}
+		check(from, "emitted-url-is-an-accepted-input-url")
 	}
 	verifAssert(ok, "C03")
+}
+
+// HarnessC03_multi: several attributes per tag with validURL replaced by an
+// arbitrary verdict; checks that every emitted URL attribute went through
+// validURL and carries its result (and the rewriter's, for src).
+func HarnessC03_multi() {
+	p := &Policy{}
+	p.init()
+	p.RequireParseableURLs(true)
+	pos := nondetIntRange("pos", 0, len(urlPositions)-1)
+	el, key := urlPositions[pos][0], urlPositions[pos][1]
+	verifNoteInt("pos", pos)
+	allowGlobally(p, key, "other")
+	n := nondetIntRange("in.n", 2, verifParam("maxAttrs"))
+	var in []html.Attribute
+	for i := 0; i < n; i++ {
+		k := key
+		if nondetIntRange("in.isOther", 0, 1) == 1 {
+			k = "other"
+		}
+		in = append(in, html.Attribute{Key: k, Val: nondetString("in.val")})
+	}
+	noteAttrs("in", in)
+	out := p.sanitizeAttrs(el, in, map[string][]attrPolicy{})
+	noteAttrs("out", out)
+	verifReach("C03m-reach")
+	verifNoteInt("nstubs", verifURLStubCount())
+	ok := true
+	for _, o := range out {
+		if o.Key != key {
+			continue
+		}
+		ok = verifAnd(ok, verifURLStubProduced(o.Val))
+	}
+	// and every accepted URL attribute is emitted (C07 direction), in order
+	verifAssert(ok, "C03m")
 }
